@@ -63,6 +63,7 @@ struct refdec {
     uint64_t value;    /* V_OK: value modulo 2^width */
     bool overflow;     /* V_OK: the digits denote a number >= 2^width */
     bool canonical;    /* V_OK: the count octets are *the* encoding of value */
+    bool ill_overflow; /* V_ILLEGAL: the last octet's digit also exceeds the width (a second failure class) */
 };
 
 static struct refdec
@@ -89,6 +90,7 @@ ref_dec(const unsigned char *s, size_t n, int t)
         }
     }
     r.v = V_ILLEGAL; /* maxoct octets, every one with the continuation bit */
+    r.ill_overflow = (acc >> t_width(t)) != 0;
     return r;
 }
 
@@ -254,8 +256,12 @@ judge_string(int t, const struct refdec *r, const struct dobs o[3])
             }
         return true;
     case V_ILLEGAL:
+        /* "rejected as illegal" is read as the illegal-sequence code.  Where the
+         * digits read so far also exceed the type's width two failure classes
+         * apply and the statement does not say which is reported first: any
+         * refusal is accepted there. */
         for (int d = 0; d < 3; ++d)
-            if (o[d].rc != -EILSEQ) {
+            if (r->ill_overflow ? o[d].rc >= 0 : o[d].rc != -EILSEQ) {
                 mc_fail("C14/no-terminator-illegal", "%s: %zu octets without terminator, %s decoder returned %d (want -EILSEQ=%d)",
                         TN[t], t_max(t), DN[d], o[d].rc, -EILSEQ);
                 return false;
@@ -680,7 +686,7 @@ one_string(const unsigned char *s, size_t n, size_t pre)
             r64 = r;
         mc_log("%s: reference verdict %s count=%zu value=0x%llx overflow=%d canonical=%d", TN[t],
                r.v == V_OK ? "ok" : r.v == V_ILLEGAL ? "illegal" : "truncated", r.count,
-               (unsigned long long)r.value, r.overflow, r.canonical);
+               (unsigned long long)r.value, r.overflow || r.ill_overflow, r.canonical);
         struct dobs o[3];
         run_decoders(t, blk, tot, pre, o);
         if (!judge_string(t, &r, o))
@@ -793,7 +799,13 @@ anchors(void)
     MC_ANCHOR(VARINT_32BIT_MAX_OCTETS == 5u && VARINT_64BIT_MAX_OCTETS == 10u, "maximum lengths");
     /* verdict classes of the reference on hand-made strings */
     static const unsigned char c5[6] = { 0x80, 0x80, 0x80, 0x80, 0x80, 0x00 };
-    MC_ANCHOR(ref_dec(c5, 6, T_U32).v == V_ILLEGAL, "five continuation octets are illegal for 32 bit");
+    MC_ANCHOR(ref_dec(c5, 6, T_U32).v == V_ILLEGAL && !ref_dec(c5, 6, T_U32).ill_overflow,
+              "five continuation octets are illegal for 32 bit");
+    static const unsigned char c5f[5] = { 0x80, 0x80, 0x80, 0x80, 0xff }, c5ok[5] = { 0x80, 0x80, 0x80, 0x80, 0x8f };
+    MC_ANCHOR(ref_dec(c5f, 5, T_U32).v == V_ILLEGAL && ref_dec(c5f, 5, T_U32).ill_overflow,
+              "unterminated and beyond 32 bit: two failure classes");
+    MC_ANCHOR(ref_dec(c5ok, 5, T_U32).v == V_ILLEGAL && !ref_dec(c5ok, 5, T_U32).ill_overflow,
+              "unterminated within 32 bit: one failure class");
     MC_ANCHOR(ref_dec(c5, 6, T_U64).v == V_OK && ref_dec(c5, 6, T_U64).count == 6
                   && !ref_dec(c5, 6, T_U64).canonical,
               "overlong zero for 64 bit");
